@@ -714,6 +714,21 @@ def _deserialized_experimental_value_info_for_function_ir9(
         dict[str, onnx.ValueInfoProto],
     ] = collections.defaultdict(dict)
     for value_info_proto in value_info_protos:
+        # A domain or a function name may itself contain the separators of the format
+        # ("::", "/"): an entry that starts with "{domain}::{name}/" of a function of the
+        # model belongs to that function
+        known = next(
+            (
+                (id_, value_info_proto.name[len(f"{id_[0]}::{id_[1]}/") :])
+                # (the format cannot express overloads: prefer the function without one)
+                for id_ in sorted(functions, key=lambda id_: id_[2] != "")
+                if value_info_proto.name.startswith(f"{id_[0]}::{id_[1]}/")
+            ),
+            None,
+        )
+        if known is not None:
+            function_value_value_info_mapping[known[0]][known[1]] = value_info_proto
+            continue
         if (
             parsed := _parse_experimental_function_value_info_name(value_info_proto.name)
         ) is None:
